@@ -5,16 +5,24 @@
 //! tree storer whose first leaf lookup can be paused, so that the harness — not the OS — decides which proof
 //! computations are *in flight* (holding a pooled Merkle map) across a refresh. Generated op sequences; oracle: every
 //! proof computation that STARTED after a refresh completed carries the Merkle root of the data of that refresh.
+//!
+//! Both provers of the aggregator are driven (`MithrilProverService` and `LegacyMithrilProverService`, same pool
+//! protocol, separate code), and a refresh can itself be held at one of its own steps: the logger handed to the
+//! prover is the harness's, and the k-th log record of a `compute_cache` call (on whatever thread it is emitted,
+//! including the parallel clone of the new maps) blocks until the harness has let chosen in-flight proof
+//! computations end. So the give-back of an old-generation map lands *inside* the refresh, not only around it.
 
 use std::cell::RefCell;
 use std::collections::{BTreeMap, BTreeSet};
 use std::ops::Range;
-use std::sync::{Arc, RwLock, mpsc};
+use std::sync::{Arc, Mutex, RwLock, mpsc};
 use std::thread;
 use std::time::Duration;
 
 use async_trait::async_trait;
-use mithril_aggregator::services::{BlocksTransactionsRetriever, MithrilProverService, ProverService};
+use mithril_aggregator::services::{
+    BlocksTransactionsRetriever, LegacyMithrilProverService, LegacyProverService, MithrilProverService, ProverService, TransactionsRetriever,
+};
 use mithril_cardano_node_chain::test::double::InMemoryChainDataStore;
 use mithril_common::StdResult;
 use mithril_common::crypto_helper::{MKTreeLeafIndexer, MKTreeLeafPosition, MKTreeNode, MKTreeStoreInMemory, MKTreeStorer};
@@ -22,7 +30,7 @@ use mithril_common::entities::{
     BlockHash, BlockNumber, BlockRange, CardanoBlock, CardanoBlockTransactionMkTreeNode, CardanoBlockWithTransactions, CardanoTransaction,
     SlotNumber, TransactionHash,
 };
-use mithril_common::signable_builder::BlockRangeRootRetriever;
+use mithril_common::signable_builder::{BlockRangeRootRetriever, LegacyBlockRangeRootRetriever};
 use proptest::prelude::*;
 use serde::{Deserialize, Serialize};
 use vcore::{Report, catch};
@@ -110,6 +118,159 @@ impl<S: MKTreeStorer> BlockRangeRootRetriever<S> for ChainData {
 }
 
 type Prover = MithrilProverService<PausableStore>;
+type LegacyProver = LegacyMithrilProverService<PausableStore>;
+
+// ---- the legacy prover's chain data: transactions only --------------------------------------------------------
+
+struct LegacyChain {
+    current: RwLock<Arc<Vec<CardanoTransaction>>>,
+}
+
+fn legacy_transactions(version: u8, ranges: u64) -> Vec<CardanoTransaction> {
+    let mut txs = vec![
+        CardanoTransaction::new("tx-a", BlockNumber(5), SlotNumber(50), "block-5"),
+        CardanoTransaction::new("tx-b", BlockNumber(20), SlotNumber(200), "block-20"),
+    ];
+    for r in 2..ranges {
+        let b = r * 15 + 5;
+        txs.push(CardanoTransaction::new(format!("tx-{r}-v{version}"), BlockNumber(b), SlotNumber(b * 10 + version as u64), format!("block-{b}-v{version}")));
+    }
+    txs
+}
+
+impl LegacyChain {
+    fn roots(&self, up_to: BlockNumber) -> Vec<(BlockRange, MKTreeNode)> {
+        let txs = self.current.read().unwrap().clone();
+        let ranges: BTreeSet<BlockRange> = txs.iter().map(|t| BlockRange::from_block_number(t.block_number)).filter(|r| r.end <= up_to + 1).collect();
+        ranges
+            .into_iter()
+            .map(|r| {
+                let inside: Vec<CardanoTransaction> = txs.iter().filter(|t| r.contains(&t.block_number)).cloned().collect();
+                let root = mithril_common::crypto_helper::MKTree::<MKTreeStoreInMemory>::new(&inside).unwrap().compute_root().unwrap();
+                (r, root)
+            })
+            .collect()
+    }
+}
+
+#[async_trait]
+impl TransactionsRetriever for LegacyChain {
+    async fn get_by_hashes(&self, hashes: Vec<TransactionHash>, up_to: BlockNumber) -> StdResult<Vec<CardanoTransaction>> {
+        Ok(self.current.read().unwrap().iter().filter(|t| hashes.contains(&t.transaction_hash) && t.block_number <= up_to).cloned().collect())
+    }
+    async fn get_by_block_ranges(&self, block_ranges: Vec<BlockRange>) -> StdResult<Vec<CardanoTransaction>> {
+        Ok(self.current.read().unwrap().iter().filter(|t| block_ranges.contains(&BlockRange::from_block_number(t.block_number))).cloned().collect())
+    }
+}
+
+#[async_trait]
+impl<S: MKTreeStorer> LegacyBlockRangeRootRetriever<S> for LegacyChain {
+    async fn retrieve_block_range_roots<'a>(&'a self, up_to_beacon: BlockNumber) -> StdResult<Box<dyn Iterator<Item = (BlockRange, MKTreeNode)> + 'a>> {
+        Ok(Box::new(self.roots(up_to_beacon).into_iter()))
+    }
+}
+
+// ---- a logger that can hold the caller at its k-th record ------------------------------------------------------
+
+struct Armed {
+    remaining: u32,
+    reached: mpsc::Sender<String>,
+    resume: mpsc::Receiver<()>,
+}
+
+#[derive(Default)]
+struct LogGate {
+    armed: Mutex<Option<Armed>>,
+}
+
+struct GateDrain(Arc<LogGate>);
+
+impl std::panic::UnwindSafe for GateDrain {}
+impl std::panic::RefUnwindSafe for GateDrain {}
+
+impl slog::Drain for GateDrain {
+    type Ok = ();
+    type Err = slog::Never;
+    fn log(&self, record: &slog::Record<'_>, _values: &slog::OwnedKVList) -> Result<(), slog::Never> {
+        let hit = {
+            let mut g = self.0.armed.lock().unwrap();
+            match g.as_mut() {
+                Some(a) if a.remaining == 0 => g.take(),
+                Some(a) => {
+                    a.remaining -= 1;
+                    None
+                }
+                None => None,
+            }
+        };
+        if let Some(a) = hit {
+            let words: Vec<String> = record.msg().to_string().split_whitespace().take(3).map(String::from).collect();
+            let _ = a.reached.send(words.join("-"));
+            let _ = a.resume.recv_timeout(TIMEOUT);
+        }
+        Ok(())
+    }
+}
+
+// ---- the two provers behind one face -----------------------------------------------------------------------------
+
+enum Sut {
+    New { prover: Prover, chain: Arc<ChainData>, stores: BTreeMap<u8, Arc<InMemoryChainDataStore>> },
+    Legacy { prover: LegacyProver, chain: Arc<LegacyChain>, data: BTreeMap<u8, Arc<Vec<CardanoTransaction>>> },
+}
+
+impl Sut {
+    fn build(legacy: bool, pool_size: usize, logger: slog::Logger) -> Sut {
+        if legacy {
+            let data: BTreeMap<u8, Arc<Vec<CardanoTransaction>>> = (0u8..3).map(|v| (v, Arc::new(legacy_transactions(v, 4)))).collect();
+            let chain = Arc::new(LegacyChain { current: RwLock::new(data[&0].clone()) });
+            Sut::Legacy { prover: LegacyProver::new(chain.clone(), chain.clone(), pool_size, logger), chain, data }
+        } else {
+            // the chain always holds 4 ranges; refreshes go up to the end of range 3 or 4
+            let stores: BTreeMap<u8, Arc<InMemoryChainDataStore>> = (0u8..3).map(|v| (v, Arc::new(build_store(v, 4)))).collect();
+            let chain = Arc::new(ChainData { current: RwLock::new(stores[&0].clone()) });
+            Sut::New { prover: Prover::new(chain.clone(), chain.clone(), pool_size, logger), chain, stores }
+        }
+    }
+    fn set_version(&self, v: u8) {
+        match self {
+            Sut::New { chain, stores, .. } => *chain.current.write().unwrap() = stores[&v].clone(),
+            Sut::Legacy { chain, data, .. } => *chain.current.write().unwrap() = data[&v].clone(),
+        }
+    }
+    fn compute_cache(&self, beacon: BlockNumber) -> StdResult<()> {
+        match self {
+            Sut::New { prover, .. } => block_on(prover.compute_cache(beacon)),
+            Sut::Legacy { prover, .. } => block_on(prover.compute_cache(beacon)),
+        }
+    }
+    /// the root a certificate for `beacon` signs, computed by the harness from the chain data as it is now
+    fn expected_root(&self, beacon: BlockNumber) -> String {
+        match self {
+            Sut::New { chain, .. } => expected_root(&chain.store(), beacon),
+            Sut::Legacy { chain, .. } => block_on(LegacyBlockRangeRootRetriever::<MKTreeStoreInMemory>::compute_merkle_map_from_block_range_roots(&**chain, beacon))
+                .unwrap()
+                .compute_root()
+                .unwrap()
+                .to_hex(),
+        }
+    }
+    fn prove(&self, up_to: BlockNumber) -> Result<Option<String>, String> {
+        match self {
+            Sut::New { prover, .. } => prove(prover, up_to),
+            Sut::Legacy { prover, .. } => match block_on(prover.compute_transactions_proofs(up_to, &["tx-a".to_string()])) {
+                Ok(proofs) => match proofs.first() {
+                    Some(p) => {
+                        p.verify().map_err(|e| format!("proof does not verify: {e:#}"))?;
+                        Ok(Some(p.merkle_root()))
+                    }
+                    None => Ok(None),
+                },
+                Err(e) => Err(format!("{e:#}")),
+            },
+        }
+    }
+}
 
 fn block_on<F: std::future::Future>(future: F) -> F::Output {
     tokio::runtime::Builder::new_current_thread().enable_all().build().unwrap().block_on(future)
@@ -149,12 +310,18 @@ pub enum POp {
     Complete(u8),
     /// n proof computations from start to end
     Prove(u8),
+    /// compute_cache held at its `at`-th log record; while it is held, the in-flight computations of the listed
+    /// slots end (their Merkle maps come back to the pool in the middle of the refresh); then the refresh goes on
+    RefreshHeld { four_ranges: bool, at: u8, complete: Vec<u8> },
 }
 
 #[derive(Clone, Debug, Serialize, Deserialize)]
 pub struct PCase {
     pool_size: u8,
     ops: Vec<POp>,
+    /// drive `LegacyMithrilProverService` instead of `MithrilProverService`
+    #[serde(default)]
+    legacy: bool,
 }
 
 struct InFlight {
@@ -178,12 +345,10 @@ fn prove(prover: &Prover, up_to: BlockNumber) -> Result<Option<String>, String> 
 pub fn prover_case(c: &PCase) -> Report {
     let mut rep = Report::new();
     let pool_size = 1 + (c.pool_size % 3) as usize;
-    let stores: BTreeMap<(u8, bool), Arc<InMemoryChainDataStore>> =
-        [(0u8, false), (1, false), (2, false), (0, true), (1, true), (2, true)].into_iter().map(|(v, four)| ((v, four), Arc::new(build_store(v, if four { 4 } else { 3 })))).collect();
-    // the chain always holds 4 ranges; refreshes go up to the end of range 3 or 4
-    let chain = Arc::new(ChainData { current: RwLock::new(stores[&(0, true)].clone()) });
-    let prover = Arc::new(Prover::new(chain.clone(), chain.clone(), pool_size, slog::Logger::root(slog::Discard, slog::o!())));
-    let mut version = 0u8;
+    let gate = Arc::new(LogGate::default());
+    let sut = Arc::new(Sut::build(c.legacy, pool_size, slog::Logger::root(GateDrain(gate.clone()), slog::o!())));
+    let who = if c.legacy { "legacy prover" } else { "prover" };
+    rep.label(if c.legacy { "prover:legacy" } else { "prover:current" });
     let mut refresh_count = 0u32;
     // (beacon, expected root) of the latest completed refresh
     let mut current: Option<(BlockNumber, String)> = None;
@@ -198,7 +363,7 @@ pub fn prover_case(c: &PCase) -> Report {
                         if &root != want {
                             rep.violation(
                                 "prover:proof-from-superseded-cache",
-                                format!("{what}: a proof computation started after refresh #{refresh_count} completed carries the Merkle root {root} of a superseded cache (expected {want}); trace {trace:?}"),
+                                format!("{who}, {what}: a proof computation started after refresh #{refresh_count} completed carries the Merkle root {root} of a superseded cache (expected {want}); trace {trace:?}"),
                             );
                         } else {
                             rep.label("prover:proof-judged");
@@ -219,23 +384,73 @@ pub fn prover_case(c: &PCase) -> Report {
     for op in &c.ops {
         trace.push(format!("{op:?}"));
         match op {
-            POp::SetVersion(v) => {
-                version = v % 3;
-                *chain.current.write().unwrap() = stores[&(version, true)].clone();
-            }
+            POp::SetVersion(v) => sut.set_version(v % 3),
             POp::Refresh { four_ranges } => {
                 let beacon = BlockRange::LENGTH * (if *four_ranges { 4 } else { 3 }) - 1;
-                match catch(|| block_on(prover.compute_cache(beacon))) {
+                match catch(|| sut.compute_cache(beacon)) {
                     Ok(Ok(())) => {
                         refresh_count += 1;
-                        current = Some((beacon, expected_root(&chain.store(), beacon)));
+                        current = Some((beacon, sut.expected_root(beacon)));
                         rep.label("prover:refresh");
                         if !slots.is_empty() {
                             rep.label("prover:refresh-with-proof-in-flight");
                         }
                     }
                     other => {
-                        rep.violation("prover:compute-cache-failed", format!("compute_cache failed: {:?}; trace {trace:?}", other.map(|r| r.map_err(|e| format!("{e:#}")))));
+                        rep.violation("prover:compute-cache-failed", format!("{who}: compute_cache failed: {:?}; trace {trace:?}", other.map(|r| r.map_err(|e| format!("{e:#}")))));
+                        break;
+                    }
+                }
+            }
+            POp::RefreshHeld { four_ranges, at, complete } => {
+                let beacon = BlockRange::LENGTH * (if *four_ranges { 4 } else { 3 }) - 1;
+                let had_inflight = !slots.is_empty();
+                let (reached_tx, reached_rx) = mpsc::channel();
+                let (resume_tx, resume_rx) = mpsc::channel();
+                // records of one call: start, one per new map (parallel), drain, refill, completed
+                *gate.armed.lock().unwrap() = Some(Armed { remaining: (*at as u32) % (pool_size as u32 + 4), reached: reached_tx, resume: resume_rx });
+                let p = sut.clone();
+                let th = thread::spawn(move || catch(|| p.compute_cache(beacon)));
+                let mut held_at = None;
+                loop {
+                    match reached_rx.recv_timeout(Duration::from_millis(2)) {
+                        Ok(msg) => {
+                            held_at = Some(msg);
+                            break;
+                        }
+                        Err(mpsc::RecvTimeoutError::Timeout) if !th.is_finished() => {}
+                        Err(_) => break,
+                    }
+                }
+                if let Some(msg) = &held_at {
+                    rep.label(format!("prover:refresh-held-at:{msg}"));
+                    let mut ended = 0;
+                    for j in complete {
+                        if let Some(f) = slots.remove(&(j % 3)) {
+                            let _ = f.resume.send(());
+                            let res = f.thread.join().unwrap_or_else(|_| Err("thread panicked".into()));
+                            judge(&mut rep, "proof ending inside a refresh", res, f.started_after_refresh, refresh_count, &current, &trace);
+                            ended += 1;
+                        }
+                    }
+                    if ended > 0 {
+                        rep.label("prover:proof-ended-inside-refresh");
+                        rep.label(format!("prover:proof-ended-inside-refresh-at:{msg}"));
+                    }
+                }
+                *gate.armed.lock().unwrap() = None;
+                let _ = resume_tx.send(());
+                match th.join().unwrap_or_else(|_| Err("refresh thread panicked".into())) {
+                    Ok(Ok(())) => {
+                        refresh_count += 1;
+                        current = Some((beacon, sut.expected_root(beacon)));
+                        rep.label("prover:refresh");
+                        if had_inflight {
+                            rep.label("prover:refresh-with-proof-in-flight");
+                        }
+                    }
+                    other => {
+                        rep.violation("prover:compute-cache-failed", format!("{who}: compute_cache failed: {:?}; trace {trace:?}", other.map(|r| r.map_err(|e| format!("{e:#}")))));
                         break;
                     }
                 }
@@ -249,10 +464,10 @@ pub fn prover_case(c: &PCase) -> Report {
                 }
                 let (reached_tx, reached_rx) = mpsc::channel();
                 let (resume_tx, resume_rx) = mpsc::channel();
-                let p = prover.clone();
+                let p = sut.clone();
                 let th = thread::spawn(move || {
                     PAUSE_NEXT_LEAF_LOOKUP.with(|c| *c.borrow_mut() = Some(Pause { reached: reached_tx, resume: resume_rx }));
-                    let r = prove(&p, beacon);
+                    let r = p.prove(beacon);
                     PAUSE_NEXT_LEAF_LOOKUP.with(|c| *c.borrow_mut() = None);
                     r
                 });
@@ -280,7 +495,7 @@ pub fn prover_case(c: &PCase) -> Report {
                     continue;
                 }
                 for _ in 0..(1 + n % 4) {
-                    let res = catch(|| prove(&prover, beacon)).unwrap_or_else(|p| Err(format!("panic {p}")));
+                    let res = catch(|| sut.prove(beacon)).unwrap_or_else(|p| Err(format!("panic {p}")));
                     if refresh_count > 1 && !slots.is_empty() {
                         judged_after_refresh_with_inflight = true;
                     }
@@ -301,17 +516,16 @@ pub fn prover_case(c: &PCase) -> Report {
     if !rep.is_violation() {
         if let Some((beacon, _)) = current.clone() {
             for i in 0..(2 * pool_size + 1) {
-                let res = catch(|| prove(&prover, beacon)).unwrap_or_else(|p| Err(format!("panic {p}")));
+                let res = catch(|| sut.prove(beacon)).unwrap_or_else(|p| Err(format!("panic {p}")));
                 judge(&mut rep, &format!("final proof #{i}"), res, refresh_count, refresh_count, &current, &trace);
             }
         }
     }
-    let _ = version;
     if judged_after_refresh_with_inflight {
         rep.label("prover:judged-while-other-in-flight");
     }
     if rep.labels.iter().any(|l| l == "prover:refresh-with-proof-in-flight") {
-        rep.nontrivial(format!("prover size:{pool_size} trace:{}", trace.join(",")));
+        rep.nontrivial(format!("{who} size:{pool_size} trace:{}", trace.join(",")));
     }
     rep
 }
@@ -319,14 +533,15 @@ pub fn prover_case(c: &PCase) -> Report {
 pub fn prover_strategy() -> impl Strategy<Value = PCase> {
     let op = prop_oneof![
         2 => (0u8..3).prop_map(POp::SetVersion),
-        3 => any::<bool>().prop_map(|four_ranges| POp::Refresh { four_ranges }),
-        3 => (0u8..3).prop_map(POp::Start),
+        2 => any::<bool>().prop_map(|four_ranges| POp::Refresh { four_ranges }),
+        3 => (any::<bool>(), 0u8..8, prop::collection::vec(0u8..3, 0..3)).prop_map(|(four_ranges, at, complete)| POp::RefreshHeld { four_ranges, at, complete }),
+        4 => (0u8..3).prop_map(POp::Start),
         3 => (0u8..3).prop_map(POp::Complete),
         2 => (0u8..4).prop_map(POp::Prove),
     ];
-    (0u8..3, prop::collection::vec(op, 3..14)).prop_map(|(pool_size, mut ops)| {
+    (0u8..3, prop::collection::vec(op, 3..14), any::<bool>()).prop_map(|(pool_size, mut ops, legacy)| {
         // every history starts with a refresh (the prover computes its cache before serving proofs)
         ops.insert(0, POp::Refresh { four_ranges: false });
-        PCase { pool_size, ops }
+        PCase { pool_size, ops, legacy }
     })
 }
